@@ -19,6 +19,13 @@ IdxThorough    == -6 .. 6
 CntThorough    == -5 .. 6
 NCntThorough   == 0 .. 5
 
+\* thorough, second scope: 3 byte values, buffers up to 5 bytes, a one-byte B, indices/counts further out
+TextsLen5    == {<<>>, <<233>>, <<32, 0>>, <<0, 233, 32>>, <<233, 0, 0, 32, 233>>}
+TextsBLen5   == {<<>>, <<0>>, <<233>>}
+IdxLen5      == -7 .. 7
+CntLen5      == -3 .. 7
+NCntLen5     == 0 .. 6
+
 ObsEmit(op, args, ret, anyret, post) ==
     PrintT(ToJson([pre |-> Pre, op |-> op, args |-> args, ret |-> IF anyret THEN "*" ELSE ret, post |-> post]))
 ================================================================================
